@@ -84,6 +84,13 @@ S(id="HT.cpp.native", props=["C19", "C16"], spec="native/ht_enum_cpp.cpp", mode=
   params={"quick": {"LEN": 5}, "thorough": {"LEN": 7}}, bound="every sequence of <= 5 (thorough 7) insert/remove/find operations over 4 keys, 5 hash functions, table growing from 3 slots",
   functions=["hash_table::hash_table", "hash_table::find_entry", "hash_table::expand_hash_table", "hash_table::remove_element_from_entry"],
   what="C++ twin (class hash_table of hashtab.cpp): same history-level statement as HT.history.native")
+S(id="OSVLO.cpp.native", props=["C19", "C16"], spec="native/osvlo_enum_cpp.cpp", mode="N", cc="clang++", link=["objstack.cpp", "vlobject.cpp", "allocate.c"], harness="main",
+  params={"quick": {"LEN": 5}, "thorough": {"LEN": 6}}, bound="every sequence of <= 5 (thorough 6) of 9 operations on class os (segment lengths 13/16/24) and class vlo (initial lengths 1/16/24), realloc always moves",
+  functions=["os::*", "vlo::*"], what="C++ twins: finished objects of an object stack never move or change, the top object and a VLO hold exactly the bytes appended minus those shortened")
+S(id="OSVLO.history.native", props=["C19"], spec="native/osvlo_enum.c", mode="N", link=["objstack.c", "vlobject.c", "allocate.c"], harness="main",
+  params={"quick": {"LEN": 5}, "thorough": {"LEN": 6}}, bound="every sequence of <= 5 (thorough 6) of 9 operations on an os_t (segment lengths 13/16/24) and a vlo_t (initial lengths 1/16/24), realloc always moves",
+  functions=["OS_* macros", "_OS_expand_memory", "_OS_add_string_function", "VLO_* macros", "_VLO_expand_memory", "_VLO_tailor_function", "_VLO_add_string_function"],
+  what="history-level statements: finished objects of an object stack never move or change, the top object and a VLO hold exactly the bytes appended minus those shortened, wherever they are reallocated")
 S(id="HT.hpn.native", props=["C19"], spec="native/ht_prime.c", mode="N", link=["hashtab.c", "allocate.c"], harness="main",
   params={"quick": {"K": 20000}, "thorough": {"K": 2000000}}, bound="all requested sizes 0..K",
   functions=["higher_prime_number"], what="assumed clause of hpn_assumed_c: result is a prime in (n, 2n+3]")
